@@ -60,6 +60,24 @@ where
             };
 
             let _ = mount.append_child(&container);
+            // `Portal` only runs on wasm32 (see the `cfg!` above) and a `web_sys` element cannot
+            // be turned into a native one, so this twin only has to type-check.
+            #[cfg(leptos_verif)]
+            let handle = SendWrapper::new((
+                mount::mount_to(
+                    {
+                        let _ = &render_root;
+                        tachys::dom::body()
+                    },
+                    {
+                        let children = Arc::clone(&children);
+                        move || untrack(|| children())
+                    },
+                ),
+                mount.clone(),
+                container,
+            ));
+            #[cfg(not(leptos_verif))]
             let handle = SendWrapper::new((
                 mount::mount_to(render_root.unchecked_into(), {
                     let children = Arc::clone(&children);
